@@ -1,13 +1,18 @@
 import MdVerif.Props.C11
 
+#print axioms MdVerif.Instance.C11_reset_eq_fresh
 #print axioms MdVerif.Instance.C11_reset_is_fresh
 #print axioms MdVerif.Instance.C11_reset_fresh
 #print axioms MdVerif.Instance.C11_reset_fresh_state
 #print axioms MdVerif.Instance.C11_reset_fresh_future
 #print axioms MdVerif.Instance.C11_reset_fresh_docs
 #print axioms MdVerif.Instance.C11_history_irrelevant
+#print axioms MdVerif.Instance.C11_reset_depends_on_cfg_only
+#print axioms MdVerif.Instance.C11_leak_balanced
 #print axioms MdVerif.Instance.C11_instances_disjoint
 #print axioms MdVerif.Instance.C11_other_instances_frame
 #print axioms MdVerif.Instance.C11_two_instances
 #print axioms MdVerif.Instance.Toy.toy_balanced
-#print axioms MdVerif.Instance.Toy.C11_noraise_needed
+#print axioms MdVerif.Instance.C11_repair_conservative
+#print axioms MdVerif.Instance.C11_before_repair_reset_fresh
+#print axioms MdVerif.Instance.Toy.C11_before_repair_noraise_needed
